@@ -946,6 +946,26 @@ fn polyops(rng: &mut Rng, iters: u64) {
                     }
                 }
             }
+            // 2a. every small shape of roots_eval (1..6 roots x 2..6 points): the recursion bottoms out in special cases (a single
+            // point is outside the use of the crate: the length-2 shortcut test underflows there in checked builds, cf. PD-G3)
+            if round == 0 {
+                for na in 1..=6usize {
+                    for nb in 2..=6usize {
+                        let av: Vec<MInt> = (0..na).map(|_| elem(rng)).collect();
+                        let bv: Vec<MInt> = (0..nb).map(|_| elem(rng)).collect();
+                        let r = catch_unwind(AssertUnwindSafe(|| Poly::roots_eval(&zn, &av, &bv)));
+                        match r {
+                            Err(_) => fail("polyops", format!("Poly::roots_eval (n of {bits} bits, {na} roots, {nb} points): panic")),
+                            Ok(re) => for j in 0..nb {
+                                let mut v = zn.one(); for a in &av { v = zn.mul(&v, &zn.sub(&bv[j], a)); }
+                                if re.len() != nb || zn.to_int(re[j]) != zn.to_int(v) {
+                                    fail("polyops", format!("Poly::roots_eval (n = {n}, {na} roots, {nb} points): value at point {j} is {:?}, product of (b - a_i) is {}", re.get(j).map(|x| zn.to_int(*x)), zn.to_int(v)));
+                                }
+                            }
+                        }
+                    }
+                }
+            }
             // 2. polynomial from roots, evaluation, multipoint evaluation, roots_eval
             let na = 1 + (rng.next() as usize) % (if round % 2 == 0 { 12 } else { 70 });
             // power-series quotient P / Q mod X^len for the lengths the crate uses (2^k + 1, k >= 2): every combination of a
